@@ -604,5 +604,36 @@ def r11_13(ctx):
     return r
 
 
+def r11_14(ctx):
+    """'... legal re-fragmentation of handshake datagrams': both ends hash the handshake messages in their UNFRAGMENTED
+    form (RFC 6347 4.2.6: as if each message had been sent as a single fragment - fragment_offset 0, fragment_length =
+    length). A receiver that reassembles fragments re-encodes the message for its transcript; if the re-encoded header
+    keeps anything of the last fragment (its fragment_length), the transcript differs from the sender's, the two ends
+    derive different session hashes / master secrets / Finished values and neither connects - only when a peer with a
+    smaller MTU (or the network harness) fragments, never between two rustrtc endpoints. Decided: the message built from
+    the reassembly buffer has fragment_offset == 0 and fragment_length == total_length (the same value)."""
+    r = RuleResult("R11.14", "K6/dataflow", "a reassembled handshake message enters the transcript in its unfragmented form")
+    b = ctx.body(D + "process_handshake_payload::{closure#0}")
+    r.scope.append(b.name)
+    n = 0
+    for bi, si, st in core.aggregates(b, lambda a: a.endswith("handshake::HandshakeMessage")):
+        rv = st["rv"]
+        f = dict(zip(rv["fields"], [b.term_operand(o) for o in rv["ops"]]))
+        if not mir.has_field(f.get("body", ("none",)), "incomplete_handshake"):
+            continue            # not the reassembled message
+        n += 1
+        off_ok = mir.int_value(f["fragment_offset"]) == 0
+        len_ok = f["fragment_length"] == f["total_length"]
+        if off_ok and len_ok:
+            r.ok({"site": b.where(bi, si), "header": "fragment_offset = 0, fragment_length = total_length"})
+        else:
+            r.violate(b.name, "reassembled:header", b.where(bi, si),
+                      "the message rebuilt from the reassembly buffer is re-encoded with fragment_offset %s / fragment_length %s instead of 0 / "
+                      "total_length: its transcript bytes differ from what the sender hashed, so a handshake with ANY fragmented message cannot "
+                      "complete" % (mir.show(f["fragment_offset"], 30), mir.show(f["fragment_length"], 40)))
+    r.need("message built from the reassembly buffer", n, 1)
+    return r
+
+
 def run(ctx):
-    return [r11_1(ctx), r11_2(ctx), r11_3(ctx), r11_4(ctx), r11_5(ctx), r11_6(ctx), r11_7(ctx), r11_8(ctx), r11_9(ctx), r11_10(ctx), r11_11(ctx), r11_12(ctx), r11_13(ctx)]
+    return [r11_1(ctx), r11_2(ctx), r11_3(ctx), r11_4(ctx), r11_5(ctx), r11_6(ctx), r11_7(ctx), r11_8(ctx), r11_9(ctx), r11_10(ctx), r11_11(ctx), r11_12(ctx), r11_13(ctx), r11_14(ctx)]
